@@ -50,6 +50,15 @@ def gen_cases(tier, seed):
     for cyc_ in (False, True):
         for cons in (hub_c, hub_c[:7]):
             cases.append({"covlen": None, "lengths": [], "spec": gen.spec(hub_n, hub_e), "cyc": cyc_, "node": False, "ignore": [], "starts": [], "ends": [], "cons": cons, "cov": 1.0})
+    # a hub edge (a,b) that one covering walk has to pass more often than the graph has nodes: b -> x_i, a complete bipartite block x_i -> y_j,
+    # y_j -> a (p*q + 1 passes of (a,b) for one walk)
+    for p_, q_, se_ in ((3, 4, True), (4, 4, False), (2, 2, True)):
+        xs = [f"x{i}" for i in range(p_)]; ys = [f"y{j}" for j in range(q_)]
+        dn = ["a", "b"] + xs + ys; de = [("a", "b")] + [("b", x) for x in xs] + [(x, y) for x in xs for y in ys] + [(y, "a") for y in ys]
+        st_, en_ = (["a"], ["b"]) if se_ else ([], [])
+        if not se_:
+            dn += ["s", "t"]; de += [("s", "a"), ("b", "t")]
+        cases.append({"covlen": None, "lengths": [], "spec": gen.spec(dn, de), "cyc": True, "node": False, "ignore": [], "starts": st_, "ends": en_, "cons": [], "cov": 1.0})
     # a long simple path (more nodes than Python's default recursion limit): one walk covers it
     cases.append({"kind": "longpath", "n": 1100})
     n = 500 if tier == "quick" else 5000
